@@ -14,6 +14,8 @@ use crate::symbol::with_symbol_table;
 use crate::{dprintln, features};
 
 pub use self::breakpoint::{Breakpoint, Breakpoints};
+#[cfg(lace_verif)]
+pub use self::command::verif_term;
 
 /// Leave this as a struct, in case more options are added in the future. Plus it is more explicit.
 #[derive(Debug)]
